@@ -79,3 +79,40 @@ Definition check_case_derivs (c : case) : bool :=
   let '(l, tbl, vtol, dtol, os) := c in
   wf oq l && forallb (fun o : obs => let '(k, _, _, _, ds) := o in
                         forallb (fun md => agree (qderiv l k (fst md)) (snd md) dtol) ds) os.
+
+(** ---- the same checks with the tables computed once per case (vm_compute shares let-bound values).
+    [value l k], [deriv l k m], [sources l k] ARE lookups into [vals l], [dvals m l], [srcs l]; the
+    functions below only avoid recomputing those tables for every number
+    (Proofs/CoreQFast.v: check_case_fast c = check_case c). ---- *)
+Definition assoc_tab (tabs : list (nat * list oq)) (m : nat) : list oq :=
+  match find (fun p => Nat.eqb (fst p) m) tabs with Some p => snd p | None => [] end.
+
+Definition qerr2_tab (rho : nat -> nat -> oq) (l : list (obj oq)) (srcl : list nat) (dk : nat -> oq) (absolute : bool) : oq :=
+  let ab (x : oq) := if absolute then oabs x else x in
+  let q i := let t := omul (error_m oq qzero l i) (dk i) in ab (omul t t) in
+  let c (p : nat * nat) :=
+      let '(i, j) := p in
+      ab (omul (omul (omul qtwo (omul (omul (rho i j) (error_m oq qzero l i)) (error_m oq qzero l j)))
+                     (dk i)) (dk j)) in
+  oadd (sum oq qzero oadd (map q srcl)) (sum oq qzero oadd (map c (pairs (A:=nat) srcl))).
+
+Definition check_case_fast (c : case) : bool :=
+  let '(l, tbl, vtol, dtol, os) := c in
+  let vs := vals oq qzero q_su q_sb l in
+  let ss := srcs oq l in
+  let ms := fold_right (fun (o : obs) acc => let '(_, _, _, _, ds) := o in
+                          fold_right (fun md a => if existsb (Nat.eqb (fst md)) a then a else fst md :: a) acc ds) [] os in
+  let ms2 := fold_right (fun s acc => fold_right (fun i a => if existsb (Nat.eqb i) a then a else i :: a) acc s) ms ss in
+  let tabs := map (fun m => (m, dvals oq qzero qone q_su q_sb q_du q_db m l)) ms2 in
+  let rho := rho_of tbl in
+  wf oq l && forallb (fun o : obs =>
+    let '(k, v, e, srcl, ds) := o in
+    let dk i := lookup qzero (assoc_tab tabs i) k in
+    let msrc := lookup [] ss k in
+    agree (lookup qzero vs k) v vtol
+    && list_eqb Nat.eqb msrc srcl
+    && forallb (fun md => agree (dk (fst md)) (snd md) dtol) ds
+    && match qerr2_tab rho l msrc dk false, qerr2_tab rho l msrc dk true with
+       | Some x, Some s => Qle_bool (Qabs (x - e * e)) ((4 # 1) * tol * (s + e * e) + (1 # 1000000000000000000000000))
+       | _, _ => true
+       end) os.
